@@ -329,6 +329,57 @@ Definition gelem_spec_ok (c : gcase) : bool :=
   | None => false
   end.
 
+(* ---------------- Schema.merge / SchemaCollection.merge ---------------- *)
+(* One Schema object per namespace (SchemaCollection.add), folded into the first
+   by Schema.merge: for each of the tables (attributes, elements, types, groups,
+   attribute groups) in turn, an entry of the other schema is taken over unless THAT
+   table of self already has the key.  Global attributes are not modelled. *)
+
+Definition present (k : dkind) (q : qn) (l : list placed) : bool :=
+  match lookup_decl k q l with Some _ => true | None => false end.
+
+Definition merge_schema (self other : list placed) : list placed :=
+  self ++ filter (fun p => negb (present (decl_kind (p_decl p)) (p_ns p, decl_name (p_decl p)) self)) other.
+
+Definition of_ns (ns : nsid) (T : list placed) : list placed := filter (fun p => N.eqb (p_ns p) ns) T.
+
+(* namespaces in order of first appearance: SchemaCollection.children *)
+Fixpoint ns_order (seen : list nsid) (T : list placed) : list nsid :=
+  match T with
+  | [] => []
+  | p :: T' => if existsb (N.eqb (p_ns p)) seen then ns_order seen T'
+               else p_ns p :: ns_order (p_ns p :: seen) T'
+  end.
+
+Definition merge_all (l : list (list placed)) (acc : list placed) : list placed :=
+  fold_left merge_schema l acc.
+
+Definition merged_schema (C : cschema) : list placed :=
+  let T := placed_all C in
+  match ns_order [] T with
+  | [] => []
+  | n :: rest => merge_all (map (fun m => of_ns m T) rest) (of_ns n T)
+  end.
+
+Definition table_keys (k : dkind) (l : list placed) : list qn :=
+  map (fun p => (p_ns p, decl_name (p_decl p))) (filter (fun p => dkind_eqb (decl_kind (p_decl p)) k) l).
+
+Definition qset_eqb (a b : list qn) : bool :=
+  forallb (fun x => existsb (qn_eqb x) b) a && forallb (fun x => existsb (qn_eqb x) a) b.
+
+Record mcase := mkMC {
+  mc_concrete : cschema;
+  mc_tables : list (dkind * list qn)        (* keys of client.wsdl.schema.{types,elements,groups,agrps} *)
+}.
+
+Definition merge_agrees (c : mcase) : bool :=
+  forallb (fun kt => qset_eqb (snd kt) (table_keys (fst kt) (merged_schema (mc_concrete c)))) (mc_tables c).
+
+(* spec: the merged schema offers every declaration of every namespace in the table
+   of its own symbol space, and nothing else *)
+Definition merge_spec_ok (c : mcase) : bool :=
+  forallb (fun kt => qset_eqb (snd kt) (table_keys (fst kt) (placed_all (mc_concrete c)))) (mc_tables c).
+
 (* ---------------- one case per rendering ---------------- *)
 
 Record scase := mkSC {
